@@ -669,6 +669,13 @@ def c05_11(ctx):
     return [ctx.ok(spec, "ext_flag = 1 exactly when two or more items remain after the annex is set aside (%d witness shapes)" % len(shapes), fn, mod, key="ext-flag-annex")]
 
 
+def c05_12(ctx):
+    """MUTABLE-DEFAULT: inputs / witnesses built with default arguments do not share one list (the digest of one input would see
+    another input's witness items)"""
+    from sa.mutdefault import mutable_default_obligation
+    return mutable_default_obligation(ctx, ["tx", "witness", "script"], "filling in one input's witness changes what sig_hash reads for the others")
+
+
 OBLIGATIONS = [
     ("C05.1", "COUNT", c05_1),
     ("C05.2", "LAYOUT vs spec", c05_2),
@@ -680,5 +687,6 @@ OBLIGATIONS = [
     ("C05.9", "DATAFLOW", c05_9),
     ("C05.10", "RANGE accept-set", c05_10),
     ("C05.11", "CELLS dispatch", c05_11),
+    ("C05.12", "MUTABLE-DEFAULT", c05_12),
 ]
 FLOORS = {"C05.1": 12, "C05.2": 7, "C05.3": 9, "C05.4": 28, "C05.5": 7, "C05.11": 1}
